@@ -190,9 +190,9 @@ Section Handlers.
   Proof.
     unfold Auth.handle_update.
     destruct (auth_relayer (reg D s) (um_chain HD m) (um_signer HD m)); cbn; [|discriminate].
-    destruct (client_of L (low D s) (um_chain HD m)) as [c|]; [|discriminate].
-    destruct (check_msg canon c (um_signer HD m)); cbn; [|discriminate].
-    destruct (lo_update D HD PK AK L (low D s) (um_chain HD m) (um_header HD m)) as [d'| |]; cbn; try discriminate.
+    destruct (client_of L (low D s) (um_chain HD m)) as [c|] eqn:Ec; [|discriminate].
+    destruct (check_msg canon c (um_signer HD m)) eqn:Ck; cbn; [|discriminate].
+    destruct (lo_update D HD PK AK L (low D s) (um_chain HD m) (um_header HD m)) as [d'| |] eqn:Eu; cbn; try discriminate.
     intro H; inversion H; subst. split; [reflexivity|]. exists c, d'. auto.
   Qed.
 
@@ -220,8 +220,9 @@ Section Handlers.
     { intros d a. unfold write_ack. destruct (lo_write_ack D HD PK AK L d m a); cbn; try discriminate.
       intro E; inversion E; subst; cbn. auto. }
     destruct (bytes_eqb_spec (rm_dst PK m) (self_chain L d1)) as [Es|Ns].
-    - destruct (lo_callback D HD PK AK L d1 m) as [d2|d2 [[[code res] msg]|]|]; try discriminate;
-        apply W in H as [H1 H2]; (split; [exact H1|]); right; eexists; split; [exact H2|]; cbn; auto.
+    - destruct (lo_callback D HD PK AK L d1 m) as [d2|d2 r|]; [| destruct r as [[[code res] msg]|] |]; try discriminate.
+      + apply W in H as [H1 H2]. split; [exact H1|]. right. eexists. split; [exact H2|]. cbn; auto.
+      + apply W in H as [H1 H2]. split; [exact H1|]. right. eexists. split; [exact H2|]. cbn; auto.
     - destruct (client_of L d1 (rm_dst PK m)) as [c|] eqn:Ec.
       + inversion H; subst; cbn. split; [reflexivity|]. left. split; [reflexivity|]. split; [exact Ns | congruence].
       + apply W in H as [H1 H2]. split; [exact H1|]. right. eexists; split; [exact H2|]. cbn; auto.
@@ -294,18 +295,23 @@ Section Handlers.
   Proof.
     unfold Auth.handle_ack, packet_ack.
     destruct (tss_signer_ok (low D s) (am_dst AK m) (am_signer AK m)); [|discriminate].
-    destruct (lo_ack D HD PK AK L (low D s) m) as [d1| |]; cbn; try discriminate.
-    destruct (am_ack AK m) as [a|]; [|discriminate].
+    destruct (lo_ack D HD PK AK L (low D s) m) as [d1| |] eqn:El; cbn; try discriminate.
+    destruct (am_ack AK m) as [a|] eqn:Ea; [|discriminate].
     destruct (ack_is_zero a) eqn:Z; [discriminate|].
     destruct (bytes_eqb_spec (am_src AK m) (self_chain L d1)) as [Es|Ns].
-    - destruct (lo_set_status D HD PK AK L d1 m) as [d2| |]; cbn; try discriminate.
-      destruct (teleport_addr fold_eq (reg D s) (am_dst AK m) (ack_relayer a)) as [[payee|]| |]; cbn; try discriminate.
+    - destruct (lo_set_status D HD PK AK L d1 m) as [d2| |] eqn:E2; cbn; try discriminate.
+      destruct (teleport_addr fold_eq (reg D s) (am_dst AK m) (ack_relayer a)) as [[payee|]| |] eqn:Et; cbn; try discriminate.
       destruct (bech32_ok payee) eqn:Bk; cbn; [|discriminate].
       destruct (lo_pay D HD PK AK L d2 m payee) as [d3| |] eqn:Ep; cbn; try discriminate.
       destruct (lo_on_ack D HD PK AK L d3 m) as [d4| |]; cbn; try discriminate.
-      intro H; inversion H; subst; cbn. repeat split. exists d1, a. repeat split.
+      intro H; inversion H; subst; cbn.
+      split; [reflexivity|]. split; [reflexivity|]. split; [reflexivity|].
+      exists d1, a. split; [reflexivity|]. split; [reflexivity|]. split; [exact Z|].
       intros _. exists payee, d2, d3. auto.
-    - intro H; inversion H; subst; cbn. repeat split. exists d1, a. repeat split. intro; contradiction.
+    - intro H; inversion H; subst; cbn.
+      split; [reflexivity|]. split; [reflexivity|]. split; [reflexivity|].
+      exists d1, a. split; [reflexivity|]. split; [reflexivity|]. split; [exact Z|].
+      intro; contradiction.
   Qed.
 
   (** * Steps and histories *)
@@ -315,15 +321,21 @@ Section Handlers.
   Lemma step_rejected s o : snd (step s o) = false -> fst (step s o) = s.
   Proof.
     destruct o; cbn; try apply deliver_rejected; try discriminate.
-    destruct (validate_basic bech32_ok a chains addrs); cbn; [discriminate | reflexivity].
+    destruct (validate_basic bech32_ok a chains addrs); [apply deliver_rejected | reflexivity].
   Qed.
+
+  Lemma do_register_step s a cs ads :
+    reg D (fst (deliver D s (do_register D s a cs ads))) =
+    match reg_write a cs ads with Some (a', x) => reg_set (reg D s) a' x | None => reg D s end.
+  Proof. unfold do_register, register_relayers, reg_write. destruct a; reflexivity. Qed.
 
   Lemma step_reg s o :
     reg D (fst (step s o)) =
     match reg_effect o with Some (a, x) => reg_set (reg D s) a x | None => reg D s end.
   Proof.
     destruct o; cbn; try reflexivity.
-    - destruct (validate_basic bech32_ok a chains addrs); reflexivity.
+    - destruct (validate_basic bech32_ok a chains addrs); [apply do_register_step | reflexivity].
+    - apply do_register_step.
     - destruct (handle_update s m) as [s'| |] eqn:E; cbn; try reflexivity.
       apply handle_update_ok in E as [_ [c [d' [_ [_ [_ ->]]]]]]. reflexivity.
     - destruct (handle_recv s m) as [s'| |] eqn:E; cbn; try reflexivity.
@@ -391,7 +403,8 @@ Section Handlers.
     destruct (length addrs =? 0)%nat; cbn; [exact W|].
     destruct (length addrs =? length chains)%nat eqn:El; cbn; [|exact W].
     destruct (forallb chain_id_ok chains); cbn; [|exact W].
-    apply reg_set_wf; [exact W|]. split; cbn; [apply Nat.eqb_eq in El; lia | exact Bk].
+    unfold reg_write. destruct a as [|b a]; [exact W|].
+    apply reg_set_wf; [exact W|]. split; cbn [fst snd r_chains r_addrs]; [apply Nat.eqb_eq in El; lia | exact Bk].
   Qed.
 
   Lemma reg_get_wf r a x : Forall rec_wf r -> reg_get r a = Some x -> length (r_chains x) = length (r_addrs x).
